@@ -19,6 +19,7 @@ and reports a DIFF if they differ, the result is the only input of the reward co
   lk.feevault  app asset x                        <o> <S>
   lk.feeclose  app asset interest closing         <o> <S>
   lk.penalty   app asset x                        <o> <S>
+  lk.v2penalty app collAsset debtAsset x          <o> <S>   (auctionsV2 bid closing a vault auction: penalty in the debt asset)
   lk.aucreturn app asset x                        <o> <S>
   lk.decrease  app asset x                        <o> <S>
   lk.getamount app asset x                        <o> <S>
@@ -487,6 +488,10 @@ def handle (st : St) (seq : String) (f : List String) : St × List String :=
     match ap.toNat?, a.toNat?, x.toInt? with
     | some ap, some a, some x => plain (.penalty ap a x) o ss
     | _, _, _ => bad
+  | ["lk.v2penalty", ap, c, d, x, o, ss] =>
+    match nat3 ap c d, x.toInt? with
+    | some (ap, c, d), some x => plain (.v2Penalty ap c d x) o ss
+    | _, _ => bad
   | ["lk.aucreturn", ap, a, x, o, ss] =>
     match ap.toNat?, a.toNat?, x.toInt? with
     | some ap, some a, some x => plain (.auctionReturn ap a x) o ss
